@@ -263,8 +263,94 @@ def cap_source(F, R):
                 fam = F.family(b)
                 mins = [1 for x in fam for _ in x.calls_to(r'^std::cmp::min$')]
                 R.ob('C05.cap-source', 'v5-server|set_cap=min(..)', bool(mins), 'the window must be the minimum of the configured max_send and the peer Receive Maximum')
+            if name == 'v5-server':
+                # every value that can reach set_cap is the bounded one: following copies/casts and the merges of branches,
+                # each terminal definition is `min(.., peer Receive Maximum)` or `peer.map_or(.., |v| min(.., v))`; a branch
+                # that hands on an override (ack.max_send) without the `min` lets the window exceed what the peer announced
+                terms = reaching_defs(b, t['args'][1])
+                unb = []
+                for kind_, xb_, x_, via_ in terms:
+                    okd = False
+                    if kind_ == 'call':
+                        nm_ = callee_name(x_) or ''
+                        if re.search(r'(^std::cmp::min$|::min$)', nm_):
+                            okd = any('receive_max' in origin_field_names(F, b, a_, wide) for a_ in x_['args'])
+                        elif re.search(r'Option::<.*>::(map_or|map_or_else|map)$', nm_) and x_['args']:
+                            recv_ok = 'receive_max' in origin_field_names(F, b, x_['args'][0], wide)
+                            clos_ = [c_ for c_ in F.descendants(b) if any(True for _ in c_.calls_to(r'(^std::cmp::min$|::min$)'))]
+                            okd = recv_ok and bool(clos_)
+                    if not okd:
+                        # no peer limit announced: the definition sits on the None side of a test of the peer's Receive Maximum
+                        for sb_ in sorted(b.live):
+                            tt_ = b.blocks[sb_]['term']
+                            if tt_['k'] != 'switch' or okd:
+                                continue
+                            pl_ = op_place(tt_['discr'])
+                            for dd_ in (b.whole_defs(pl_['l']) if pl_ else []):
+                                if dd_[2] == 'assign' and dd_[3]['rv']['k'] == 'discr' and 'receive_max' in origin_field_names(F, b, {'cp': dd_[3]['rv']['place']}, wide):
+                                    tg_ = dict((v_, x2_) for v_, x2_ in tt_['targets'])
+                                    none_t_, some_t_ = tg_.get(0, tt_['otherwise']), tg_.get(1, tt_['otherwise'])
+                                    none_side_ = b.reachable(none_t_, avoid=[some_t_]) - b.reachable(some_t_, avoid=[none_t_])
+                                    if none_t_ != some_t_ and any(v_ in none_side_ for v_ in via_):
+                                        okd = True
+                    if not okd:
+                        unb.append((kind_, xb_))
+                R.ob('C05.cap-source', 'v5-server|every-value-reaching-set_cap-is-bounded-by-the-peer-receive-maximum', bool(terms) and not unb,
+                     'a value can reach set_cap() that was not passed through min(.., CONNECT Receive Maximum) (%d of %d reaching definitions): on that branch the send window can exceed what the peer allows' % (len(unb), len(terms)), b.loc(unb[0][1]) if unb else b.loc(bi))
             consts = [l for l in Origin(b, transparent=wide).of_operand(t['args'][1]) if l[0] == 'const']
             R.ob('C05.cap-source', '%s|set_cap-not-literal' % name, not consts, 'literal window %s' % consts, b.loc(bi))
+
+
+def reaching_defs(b, op, limit=80):
+    """Terminal definitions of an operand's value: copies, moves, casts and field-less reborrows are followed backwards,
+    every definition of a local that is assigned on several branches is followed; stops at calls, aggregates, operators.
+    -> [(kind, block, stmt-or-terminator, blocks of the copies the value travelled through)]"""
+    out = []
+    seen = set()
+    work = [(op_place(op), ())]
+    while work and len(seen) < limit:
+        p, via = work.pop()
+        if p is None:
+            continue
+        key = (p['l'], tuple(str(e) for e in place_proj(p)))
+        if key in seen:
+            continue
+        seen.add(key)
+        proj = [e for e in place_proj(p) if e != '*']
+        defs = [d for d in b.whole_defs(p['l']) if d[0] in b.live]
+        if 1 <= p['l'] <= b.argc and not defs:
+            out.append(('arg', 0, p, via))
+            continue
+        for d in defs:
+            v2 = via + (d[0],)
+            if d[2] == 'assign':
+                rv = d[3]['rv']
+                if rv['k'] in ('use', 'cast') and op_place(rv['op']) is not None:
+                    q = op_place(rv['op'])
+                    work.append(({'l': q['l'], 'p': list(q.get('p') or []) + list(p.get('p') or [])}, v2))
+                elif rv['k'] in ('use', 'cast'):
+                    out.append(('const', d[0], d[3], v2))
+                elif rv['k'] in ('ref',):
+                    q = rv['place']
+                    work.append(({'l': q['l'], 'p': list(q.get('p') or []) + list(p.get('p') or [])}, v2))
+                elif rv['k'] == 'agg' and proj and rv.get('agg') in ('adt', 'tuple'):
+                    names = rv.get('names') or [str(i_) for i_ in range(len(rv['fields']))]
+                    fld = [e for e in proj if isinstance(e, dict) and 'f' in e]
+                    if fld and str(fld[0]['f']) in names and op_place(rv['fields'][names.index(str(fld[0]['f']))]) is not None:
+                        work.append((op_place(rv['fields'][names.index(str(fld[0]['f']))]), v2))
+                    else:
+                        out.append(('agg', d[0], d[3], v2))
+                else:
+                    out.append((rv['k'], d[0], d[3], v2))
+            elif d[2] == 'call':
+                nm = callee_name(d[3]) or ''
+                if re.search(r'::(into|from|get|clone|unwrap_or_default)$', nm) and d[3]['args'] and op_place(d[3]['args'][0]) is not None and not re.search(r'Option|Result', nm):
+                    work.append((op_place(d[3]['args'][0]), v2))
+                else:
+                    out.append(('call', d[0], d[3], v2))
+            else:
+                out.append((d[2], d[0], d[3], v2))
+    return out
 
 
 def origin_field_names(F, b, op, wide, depth=0):
